@@ -217,4 +217,26 @@ theorem unitKeys_prefix (sp : Nat → Bool) (pre num : Str) (hp : pre ≠ []) (h
   simp [e, addIfNotContained]
 
 
+/-! ### the whole parse (`parseFull`) -/
+
+theorem parseUnit_eq_lookup (sp : Nat → Bool) (lower : Str → Str) (um : Dict) (conn text : Str) (ns : Int) (nl : Nat) :
+    parseUnit sp lower um conn text ns nl =
+      match (unitKeys sp text ns nl).getLast? with
+      | none => none
+      | some last => lookupUnit sp lower um conn text last := by
+  unfold parseUnit lookupUnit
+  cases (unitKeys sp text ns nl).getLast? <;> rfl
+
+theorem isInfix_append_right (f h : Str) : isInfix h (f ++ h) = true := by
+  unfold isInfix
+  rw [List.any_eq_true]
+  refine ⟨f.length, by simp; omega, ?_⟩
+  simp
+
+theorem dropHalf_append (f ht : Str) (res : Option Str) (hne : ht ≠ []) :
+    dropHalf (f ++ ht) ⟨ht, ht.length, res⟩ = f := by
+  have hl : ht.length ≠ 0 := by
+    intro e; exact hne (List.length_eq_zero_iff.mp e)
+  simp [dropHalf, isInfix_append_right, hl]
+
 end RTV.Unit
